@@ -187,11 +187,11 @@ def copy_case(ctx, rng, model, kind, cnum):
                 break
 
 
-def probe(path, ops, fields, tcount, extra_hdr=()):
+def probe(path, ops, fields, tcount, extra_hdr=(), **reader_kw):
     """outcomes of every read path on the file at `path`"""
     out = {}
     try:
-        r = SgzReader(path)
+        r = SgzReader(path, **reader_kw)
     except Exception as e:  # noqa
         return {'open': ('raised', type(e).__name__)}
     try:
@@ -328,6 +328,17 @@ def run_(ctx, model):
             ctx.stats['states'] += 1
             ctx.stats['state_' + label.split()[0]] += 1
             ctx.stats['open_' + got['open'][0]] += 1
+            # the same partial file through a reader that loads the whole data section when it opens (preload=True):
+            # what it answers must again be what the complete file answers
+            if si % 2 == cnum % 2 or label.startswith('truncate'):
+                gotp = probe(part, ops, fields, tcount, extra_hdr=straddle.get(si, ()), preload=True)
+                ctx.stats['states_preload'] += 1
+                ctx.stats['preload_open_' + gotp['open'][0]] += 1
+                for k, v in gotp.items():
+                    if v[0] == 'ok' and v != truth_all.get(k, truth.get(k)):
+                        ctx.fail(f'partial file ({label}), reader with preload=True: {k} returned a value that differs from '
+                                 f'the complete file\'s', {'case': desc, 'state': label, 'call': k, 'preload': True})
+                        break
             if got['open'][0] != 'ok':
                 continue
             # K: the model's verdict (Lean `truncRaises`, theorem read_call_on_truncated_file) for every sample read on a
